@@ -109,3 +109,16 @@ claim("C15", "other", "finite-model evaluation of the p-type predicates (listene
       "exactly for registered names after the array check; p-names are filtered out of the published parameters; only recognised writers touch the parameter table; tdm variable declarations are written in the language of the declaration they are.",
       "Not decided: array element values (library formatting).",
       "DESIGN.md 5/C15")
+
+T_TEXT = ("Reads the serialiser's isinstance dispatch per value slot from the source as a table guard -> template; for every value kind that can occupy the slot selects the catching arm with the library's real class relations, renders the "
+          "template with the kind's shape class and decides, on character automata compiled from blackbird.g4, that the rendering language is included in the grammar form reading back as the same kind (and disjoint from forms of other kinds). "
+          "Also decides: parameters re-braced in one whole-identifier pass (no set-order dependence), ', ' separators, metadata/statement/mode-list shapes, array declarations per dtype with one fresh hoisted declaration per array, "
+          "p-type predicate agreement and tdm variable declarations.")
+claim("C01", "other", "serializer template analysis: dispatch-table extraction + regular-language inclusion of rendered templates in grammar token forms; unordered-flow and structural checks",
+      T_TEXT + " Kind sets: what the loader can produce.",
+      "Not decided: float printing precision; that SymPy's str of an arbitrary expression re-parses to an equal expression (trusted); exact element equality beyond 'repr of a float round-trips'. Trusted: shape classes of str.format per kind.",
+      "DESIGN.md 4.7, 5/C01")
+claim("C09", "other", "serializer template analysis: dispatch-table extraction + regular-language inclusion of rendered templates in grammar token forms; unordered-flow and structural checks",
+      T_TEXT + " Kind sets: the API's supported values (adds NumPy booleans).",
+      "Not decided: exact element round trip (library repr); signed zero in the imaginary part of complex values ('+-'[imag < 0] loses the sign of -0.0: a value-level fact). Trusted: shape classes of str.format per kind.",
+      "DESIGN.md 4.7, 5/C09")
